@@ -18,6 +18,13 @@ MINIMA = {"*": {"trajectories": 300, "rows_checked": 20000, "nontrivial_trajecto
                 "delay_draws": 200000, "inflight_runs": 20000, "zero_delay_runs": 50000}}
 
 
+SANITIZE_TIERS = ("thorough",)
+
+
+def sanitize_subset(cases):
+    return [c for c in cases if c["kind"] in ("exact", "window")][:50]
+
+
 def generate(tier, seed):
     rnd = util.rng(PROPERTY, tier, seed, "cases")
     cases = []
